@@ -8,5 +8,6 @@ export VERIF_GOROOT
 export GO="$VERIF_GOROOT/bin/go"
 export GOTOOLCHAIN=local GOFLAGS=-mod=mod GOPROXY=off GOSUMDB=off GONOSUMDB='*' GONOSUMCHECK=1 GOFLAGS=-mod=mod
 export PATH="$VERIF_GOROOT/bin:$PATH"
+export TZ=UTC
 export VERIF_BUILD="$VERIF_ROOT/.build"
 mkdir -p "$VERIF_BUILD"
